@@ -20,7 +20,7 @@ LEVEL = "proof"
 LEAN = ["SaVerif.Props.C18"]
 META = {
     "text": "Lean theorems, for every result list and every offset/limit: LIMIT..OFFSET (incl. SQLite's LIMIT -1 and PostgreSQL's LIMIT ALL), MySQL's LIMIT o,l (and o,2^64-1), OFFSET..FETCH FIRST, TOP, the Oracle ROWNUM wrappers (limit only / offset only / both with max_row = limit+offset) all equal (rows.drop off).take lim; the MSSQL ROW_NUMBER() wrapper equals the slice when the derived table keeps numbering order and is a permutation of the slice for EVERY arrangement of the derived table (row_number_wrapper_is_slice_perm; the in-order statement has a proved counterexample: finding F13, the outer query carries no ORDER BY); WITH TIES extends the slice only by rows tying with its last row; PERCENT row count bounds; the regenerated table of which form each dialect configuration renders only contains applicable forms (decide). Tied to the code by executing, on SQLite, the native rendering and the (re-rendered) MSSQL / Oracle / MySQL / PostgreSQL renderings of generated ordered queries and comparing with the slice of the unlimited ordered result.",
-    "note": "MSSQL / Oracle / MySQL / PostgreSQL syntax never runs on its own server: the ROW_NUMBER() wrapper executes on SQLite verbatim, the other forms through a rewriter that is part of the trusted base (TOP n -> LIMIT n, OFFSET o ROWS FETCH FIRST l ROWS ONLY -> LIMIT l OFFSET o, LIMIT ALL -> LIMIT -1, ROWNUM <= k -> LIMIT k, ROWNUM AS ora_rn -> row_number() OVER ()). WITH TIES and PERCENT are proved on the model and checked as rendered strings only (SQLite cannot execute them). F13 is model-level: SQLite keeps the derived table's order, so the wrapper's rows are compared as a multiset and the order is only counted.",
+    "note": "MSSQL / Oracle / MySQL / PostgreSQL syntax never runs on its own server: the ROW_NUMBER() wrapper executes on SQLite verbatim, the other forms through a rewriter that is part of the trusted base (TOP n -> LIMIT n, OFFSET o ROWS FETCH FIRST l ROWS ONLY -> LIMIT l OFFSET o, LIMIT ALL -> LIMIT -1, ROWNUM <= k -> LIMIT k, ROWNUM AS ora_rn -> row_number() OVER ()). WITH TIES and PERCENT: the rendered clause is parsed back (count, offset, PERCENT, WITH TIES), removed, the remaining ordered query runs on SQLite and the clause's documented meaning is applied by a small evaluator (trusted) to the result; compared with the case's own numbers and with the Lean withTies / percentCount. F13 is model-level: SQLite keeps the derived table's order, so the wrapper's rows are compared as a multiset and the order is only counted.",
     "technique": "Lean 4 proofs by induction over the result list for each rendering form + execution of the rendered / re-rendered SQL on SQLite",
     "design_ref": "DESIGN.md §3 C18",
 }
@@ -405,6 +405,121 @@ def check_ties_percent(ctx, names, cases, impl_out, reqs):
 
 
 
+
+# ---------------------------------------------------------------------------- WITH TIES / PERCENT, evaluated
+TOP_RE = re.compile(r"^SELECT TOP (\S+)( PERCENT)?( WITH TIES)? ")
+FETCH_RE = re.compile(r"(?: OFFSET \(?([^() ]+)\)? ROWS)? FETCH FIRST \(?([^() ]+)\)?( PERCENT)? ROWS (ONLY|WITH TIES)$")
+
+
+def eval_ties_percent(rows, n, off, percent, ties):
+    """meaning of FETCH FIRST n [PERCENT] ROWS {ONLY | WITH TIES} after OFFSET off over the
+    fully ordered rows (id, sort key)"""
+    count = -(-len(rows) * n // 100) if percent else n
+    part = rows[off : off + count]
+    if ties and part:
+        last = part[-1][1]
+        for r in rows[off + count :]:
+            if r[1] != last:
+                break
+            part.append(r)
+    return part
+
+
+def check_ties_percent_exec(ctx, names, cases, impl_out, reqs, n):
+    """the statement is rendered for each dialect, the row-limiting clause is parsed back
+    (number, offset, PERCENT, WITH TIES) and removed, the remaining query runs on SQLite and
+    the clause's documented meaning is applied to the ordered result"""
+    import random as _r
+
+    from sqlalchemy import select
+
+    for _ in range(n):
+        case = {
+            "tiescase": True,
+            "n": ctx.rng.choice([0, 1, 2, 3, 5, 30, 50, 100]),
+            "offset": ctx.rng.choice([None, None, 0, 1, 2]),
+            "ties": ctx.rng.random() < 0.6,
+            "percent": ctx.rng.random() < 0.4,
+            "desc": ctx.rng.random() < 0.5,
+            "seed": ctx.rng.randrange(1 << 30),
+        }
+        if case["percent"]:
+            case["offset"] = None  # PERCENT of the total together with OFFSET is dialect specific
+        bad = run_ties_case(case, ctx, names, cases, impl_out, reqs)
+        ctx.case(("ties", tuple(sorted((k, str(v)) for k, v in case.items()))), nontrivial=case["ties"] or case["percent"])
+        for key, detail in bad:
+            ctx.violation(key, case, detail)
+
+
+def run_ties_case(case, ctx=None, names=None, cases=None, impl_out=None, reqs=None):
+    import random as _r
+
+    from sqlalchemy import select
+
+    rng = _r.Random(case["seed"])
+    eng, t, u = make_db(rng)
+    out = []
+    try:
+        key = t.c.v.desc() if case["desc"] else t.c.v
+        base = select(t.c.id, t.c.v).order_by(key)
+        stmt = base.fetch(case["n"], with_ties=case["ties"], percent=case["percent"])
+        if case["offset"] is not None:
+            stmt = stmt.offset(case["offset"])
+        with eng.connect() as c:
+            full = [tuple(r) for r in c.execute(base)]
+            keys = [r[1] for r in full]
+            want = eval_ties_percent(list(full), case["n"], case["offset"] or 0, case["percent"], case["ties"])
+            for name, d in dialect_configs():
+                try:
+                    sql = " ".join(str(stmt.compile(dialect=d, compile_kwargs={"literal_binds": True})).split())
+                except Exception as e:  # noqa: BLE001
+                    if name.startswith("mssql") and case["offset"] is not None and (case["ties"] or case["percent"]):
+                        continue  # TOP cannot express an OFFSET: refused loudly
+                    if name == "mssql2008" and case["offset"] is not None:
+                        continue
+                    out.append(("c18-%s-ties-compile" % name, "%s: %s" % (type(e).__name__, str(e)[:150])))
+                    continue
+                mt = TOP_RE.search(sql)
+                if mt:
+                    n_, off_, pct_, ties_ = mt.group(1), "0", bool(mt.group(2)), bool(mt.group(3))
+                    rest = TOP_RE.sub("SELECT ", sql)
+                else:
+                    mf = FETCH_RE.search(sql)
+                    if not mf:
+                        if name == "mssql2008" and not (case["ties"] or case["percent"]):
+                            continue  # plain fetch on the ROW_NUMBER path: covered by the main run
+                        out.append(("c18-%s-ties-render" % name, "no row limiting clause recognised in %s" % sql))
+                        continue
+                    off_, n_, pct_, ties_ = mf.group(1) or "0", mf.group(2), bool(mf.group(3)), mf.group(4) == "WITH TIES"
+                    rest = sql[: mf.start()]
+                try:
+                    n_i, off_i = int(n_), int(off_)
+                    rows = [tuple(r) for r in c.exec_driver_sql(rest)]
+                except Exception as e:  # noqa: BLE001
+                    out.append(("c18-%s-ties-exec" % name, "%s: %s | %s" % (type(e).__name__, str(e)[:150], sql)))
+                    continue
+                got = eval_ties_percent(rows, n_i, off_i, pct_, ties_)
+                if ctx is not None:
+                    ctx.count("ties:%s" % name)
+                # rows tie on the key, so compare the keys position by position
+                if [r[1] for r in got] != [r[1] for r in want]:
+                    out.append(("c18-%s-ties-rows" % name, "keys %s, expected %s | %s" % ([r[1] for r in got], [r[1] for r in want], sql)))
+                elif names is not None:
+                    pos_keys = ",".join(str(k if not case["desc"] else -k) for k in keys) or "-"
+                    if not case["percent"]:
+                        names.append("with-ties" if case["ties"] else "fetch-only")
+                        cases.append(case)
+                        impl_out.append("ok %d" % len(got))
+                        reqs.append("limit tiescount %d %d %d %s" % (off_i, n_i, 1 if ties_ else 0, pos_keys))
+                    else:
+                        names.append("percent")
+                        cases.append(case)
+                        impl_out.append("ok %d" % (len(got) if not ties_ else -(-len(rows) * n_i // 100)))
+                        reqs.append("limit percent %d %d" % (len(rows), n_i))
+    finally:
+        eng.dispose()
+    return out
+
 # ---------------------------------------------------------------------------- slice() / __getitem__ after OFFSET
 def check_slices(ctx, names, cases, impl_out, reqs, n):
     """`stmt.offset(k).slice(a, b)`, `Query.offset(k)[a:b]`, `[a]`, `[a:]`, `[:b]`: the rows
@@ -623,12 +738,13 @@ def run(ctx):
     ctx.trusted.append("the SQL rewriter of harness/props/c18.py (meaning of TOP / OFFSET-FETCH / LIMIT ALL / LIMIT o,l / ROWNUM)")
     ctx.trusted.append("SQLite 3 window functions and LIMIT as the executing backend")
     names, cases, impl_out, reqs = [], [], [], []
-    n = 280 if ctx.tier == "quick" else 6000
+    n = 450 if ctx.tier == "quick" else 6000
     for _ in range(n):
         one(ctx, gen_case(ctx.rng, ctx.tier), names, cases, impl_out, reqs)
     check_ties_percent(ctx, names, cases, impl_out, reqs)
-    check_slices(ctx, names, cases, impl_out, reqs, 150 if ctx.tier == "quick" else 3000)
-    check_embedded(ctx, 50 if ctx.tier == "quick" else 800)
+    check_ties_percent_exec(ctx, names, cases, impl_out, reqs, 120 if ctx.tier == "quick" else 1500)
+    check_slices(ctx, names, cases, impl_out, reqs, 250 if ctx.tier == "quick" else 3000)
+    check_embedded(ctx, 80 if ctx.tier == "quick" else 800)
     if ctx.driver_ok():
         model = ctx.driver(reqs)
         for nm in sorted(set(names)):
@@ -645,6 +761,10 @@ def search(ctx, broken):
 
 def replay(ctx, obj):
     case = obj["case"]
+    if case.get("tiescase"):
+        bad = run_ties_case(case)
+        print("replay C18 ties/percent case %s -> %s" % (case, bad))
+        return bool(bad)
     if case.get("slicecase"):
         bad = run_slice_case(case)
         print("replay C18 slice case %s -> %s" % (case, bad))
